@@ -60,10 +60,6 @@ Fstr(v) == <<"fstr", v>>
 Fex(e) == <<"fexpr", e>>
 MLoc(b) == <<"mlocal", b>>
 
-SeqOf(S) == LET RECURSIVE Go(_)
-                Go(R) == IF R = {} THEN <<>> ELSE LET x == CHOOSE x \in R : TRUE IN <<x>> \o Go(R \ {x})
-            IN Go(S)
-
 Ops20 == BinOpSet \cup {"insuper"}
 LevelOps == {"*", "+", "<<", "<", "in", "insuper", "==", "&", "^", "|", "&&", "||"}   \* every level once (+ in super)
 
@@ -147,10 +143,11 @@ FillerSeq ==
         Bin("*", A, If(B, C, None)), Un("-", Func(Ps(<<>>, FALSE), A)) >>
 NFill == Len(FillerSeq)
 D1Descs == {<<"d1", i, f>> : i \in 1..NCtx, f \in 1..NFill}
-D2All == {<<"d2", i, j, f>> : i \in 1..NCtx, j \in 1..NCtx, f \in 1..NFill}
-D2Descs == IF Tier = "quick" THEN RandomSubset(9000, D2All) ELSE D2All
-D3Descs == RandomSubset(IF Tier = "quick" THEN 0 ELSE 60000,
-                        {<<"d3", i, j, k, f>> : i \in 1..NCtx, j \in 1..NCtx, k \in 1..NCtx, f \in 1..NFill})
+D2Idx == (1..NCtx) \X (1..NCtx) \X (1..NFill)
+D2Of(S) == {<<"d2", x[1], x[2], x[3]>> : x \in S}
+D2Descs == IF Tier = "quick" THEN D2Of(RandomSubset(9000, D2Idx)) ELSE D2Of(D2Idx)
+D3Descs == IF Tier = "quick" THEN {}
+           ELSE {<<"d3", i, x[1], x[2], x[3]>> : i \in 1..NCtx, x \in RandomSubset(900, D2Idx)}
 
 (* --- part 5: postfix chains -------------------------------------------------- *)
 PostList(h) ==
@@ -176,11 +173,11 @@ TargetSeq == <<A, N1, S1, <<"self">>, <<"dollar">>, <<"superf", "f">>, <<"superi
                Arr(<<A>>, FALSE), <<"tb", "u">>, <<"null">>, <<"true">>, <<"false">>>>
 NTargets == Len(TargetSeq)
 C1Descs == {<<"c1", t, p1>> : t \in 1..NTargets, p1 \in 1..NPostForms}
-C2All == {<<"c2", t, p1, p2>> : t \in 1..NTargets, p1 \in 1..NPostForms, p2 \in 1..NPostForms}
-C2Descs == IF Tier = "quick" THEN RandomSubset(3000, C2All) ELSE C2All
-C3Descs == RandomSubset(IF Tier = "quick" THEN 0 ELSE 50000,
-                        {<<"c3", t, p1, p2, p3>> : t \in 1..NTargets, p1 \in 1..NPostForms, p2 \in 1..NPostForms,
-                                                   p3 \in 1..NPostForms})
+C2Idx == (1..NTargets) \X (1..NPostForms) \X (1..NPostForms)
+C2Of(S) == {<<"c2", x[1], x[2], x[3]>> : x \in S}
+C2Descs == IF Tier = "quick" THEN C2Of(RandomSubset(3000, C2Idx)) ELSE C2Of(C2Idx)
+C3Descs == IF Tier = "quick" THEN {}
+           ELSE {<<"c3", x[1], x[2], x[3], p3>> : x \in RandomSubset(1200, C2Idx), p3 \in 1..NPostForms}
 
 (* --- part 6: object bodies ----------------------------------------------------- *)
 MemberPool == <<MLoc(Bd("v", N1)), MLoc(BdF("g", Ps(<<Pm("p"), Pd("q", N2)>>, FALSE), <<"var", "p">>)),
@@ -275,13 +272,20 @@ Expected(toks) ==
 
 SwapAt(s, i) == [j \in 1..Len(s) |-> IF j = i THEN s[i + 1] ELSE IF j = i + 1 THEN s[i] ELSE s[j]]
 DupAt(s, i) == SubSeq(s, 1, i) \o SubSeq(s, i, Len(s))
-Mutants(toks) ==
+RECURSIVE SetToSeq(_)
+SetToSeq(S) == IF S = {} THEN <<>> ELSE LET x == CHOOSE x \in S : TRUE IN <<x>> \o SetToSeq(S \ {x})
+\* p = the minimal print of a tree: one token deleted / duplicated / swapped with its right
+\* neighbour, and one pair of the (required) parentheses removed
+Mutants(p) ==
+  LET toks == p.t
+      pns == SetToSeq(ParenNodes(p.n)) IN
   [i \in 1..Len(toks) |-> [kind |-> "del", at |-> i, toks |-> DropAt(toks, i)]]
   \o [i \in 1..Len(toks) |-> [kind |-> "dup", at |-> i, toks |-> DupAt(toks, i)]]
   \o [i \in 1..(Len(toks) - 1) |-> [kind |-> "swap", at |-> i, toks |-> SwapAt(toks, i)]]
+  \o [i \in 1..Len(pns) |-> [kind |-> "unparen", at |-> pns[i][1], toks |-> DropAt(DropAt(toks, pns[i][2]), pns[i][1])]]
 MutSample == IF Tier = "quick" THEN 60 ELSE 600
 MutCases(e) ==
-  LET ms == Mutants(PrintTree(e, "min").t) IN
+  LET ms == Mutants(PrintTree(e, "min")) IN
   [i \in 1..Len(ms) |-> [kind |-> ms[i].kind, at |-> ms[i].at, toks |-> ms[i].toks, sep |-> SepCodes(ms[i].toks),
                          exp |-> Expected(ms[i].toks)]]
 
@@ -294,21 +298,20 @@ Init ==
        ELSE c \in (IF Cardinality(Part(i)) <= MutSample THEN Part(i) ELSE RandomSubset(MutSample, Part(i)))
 Next == ph = 0 /\ ph' = 1 /\ UNCHANGED c
 
-Case(p, st) == [st |-> st, toks |-> p.t, sep |-> SepCodes(p.t), core |-> InCore(p.t),
-                exp |-> [d |-> "accept", tree |-> p.n]]
-Laws(pm, pr) == TreeLaws(TreeOf(c), pm, pr)
-Emit(pm, pr) == PrintT(<<"CASE", ToJson(Case(pm, "min"))>>) /\ PrintT(<<"CASE", ToJson(Case(pr, "red"))>>)
+CaseOf(pp, style) == [st |-> style, toks |-> pp.t, sep |-> SepCodes(pp.t), core |-> InCore(pp.t),
+                      exp |-> [d |-> "accept", tree |-> pp.n]]
+Laws(tree, pmin, pred) == TreeLaws(tree, pmin, pred)
+Emit(pmin, pred) == PrintT(<<"CASE", ToJson(CaseOf(pmin, "min"))>>) /\ PrintT(<<"CASE", ToJson(CaseOf(pred, "red"))>>)
 MutLaws(ms) == \A i \in 1..Len(ms) : LawRoundTrip(ms[i].toks)
 MutEmit(ms) == \A i \in 1..Len(ms) : PrintT(<<"CASE", ToJson(ms[i])>>)
 
-LawsAndEmit ==
-  ph = 1 =>
-    IF Mode = "trees"
-    THEN LET pm == PrintTree(c, "min")
-             pr == PrintTree(c, "red") IN
-         Laws(pm, pr) /\ Emit(pm, pr)
-    ELSE LET ms == MutCases(TreeOf(c)) IN MutLaws(ms) /\ MutEmit(ms)
-LawsOnly ==
-  ph = 1 =>
-    IF Mode = "trees" THEN Laws(PrintTree(TreeOf(c), "min"), PrintTree(TreeOf(c), "red")) ELSE MutLaws(MutCases(TreeOf(c)))
+TreeCheck(tree, emit) ==
+  LET pmin == PrintTree(tree, "min")
+      pred == PrintTree(tree, "red") IN
+  Laws(tree, pmin, pred) /\ (emit => Emit(pmin, pred))
+MutCheck(tree, emit) ==
+  LET ms == MutCases(tree) IN MutLaws(ms) /\ (emit => MutEmit(ms))
+
+LawsAndEmit == ph = 1 => IF Mode = "trees" THEN TreeCheck(TreeOf(c), TRUE) ELSE MutCheck(TreeOf(c), TRUE)
+LawsOnly == ph = 1 => IF Mode = "trees" THEN TreeCheck(TreeOf(c), FALSE) ELSE MutCheck(TreeOf(c), FALSE)
 =============================================================================
